@@ -1,2 +1,71 @@
-/- C19 correspondence driver (stub: replaced when the property's model is built) -/
-def main : IO Unit := IO.println "stub"
+import PnVerif.Model.Safety
+import PnVerif.Model.HeaderText
+/-
+  C19 correspondence driver.  One request per line on stdin, one answer per line on stdout.
+
+    OPEN <hexfile>     what ncmpi_open + the inquiry functions report for these bytes according to
+                       the model (Safety.openGuarded, limit 64 KiB beyond the end of the file):
+        ERR <NC code> F <bytes requested by hdr_fetch | ->
+        OK <fmt> <numrecs|-> <ndims> <nvars> <ngatts> <unlimdim> D <len>... V <ndims> <type> <begin> <natts> <dimid>... ; ... F <bytes requested by hdr_fetch>
+        BIG <copy|count> <stream position the offending read would reach>
+      each followed by ` WIDE` when a 64-bit header word ≥ 2^63 was read (outside the modelled range)
+    TRACE <chunk> <hexfile>   instrumented window run (Safety.decodeTrace):
+        <number of accesses> <number of unsafe accesses> <stuck: true|false> <number of fetches> <bytesFetched>
+
+  64-bit fields are printed as the C prints them (two's complement, `long long`).
+-/
+open PnVerif PnVerif.Spec PnVerif.Header PnVerif.HeaderText PnVerif.Safety
+
+def asSigned (n : Nat) : Int := if n ≥ 2 ^ 63 then (n : Int) - 2 ^ 64 else n
+
+def showVar19 (v : Var) : String :=
+  String.intercalate " " ([toString v.dimids.length, toString v.xtype.code, toString (asSigned v.begin),
+    toString v.atts.length] ++ (v.dimids.take 64).map toString ++ [";"])
+
+def unlimOf (ds : List Dim) : Option Nat := ds.findIdx? (fun d => d.size == 0)
+
+def wd (w : Bool) : String := if w then " WIDE" else ""
+
+def showOpen (file : Bytes) : String :=
+  match openGuarded 65536 file with
+  | .big b m w => s!"BIG {if b then "copy" else "count"} {m}{wd w}"
+  | .err e w =>
+    let f := match e with
+      | .hdr _ => toString (bytesFetched 262144 file)
+      | _ => "-"
+    s!"ERR {e.code} F {f}{wd w}"
+  | .ok h _ w =>
+    let u := unlimOf h.dims
+    let nr := match u with | some _ => toString (asSigned h.numrecs) | none => "-"
+    let ui : Int := match u with | some i => i | none => -1
+    let ds := String.intercalate " " ("D" :: h.dims.map (fun d => toString (asSigned d.size)))
+    let vs := String.intercalate " " ("V" :: h.vars.map showVar19)
+    s!"OK {h.fmt.version} {nr} {h.dims.length} {h.vars.length} {h.gatts.length} {ui} {ds} {vs} F {bytesFetched 262144 file}{wd w}"
+
+def showTrace (chunk : Nat) (file : Bytes) : String :=
+  let t := decodeTrace chunk file
+  let bad := (t.filter (fun a => ¬ a.Safe)).length
+  let nf := (t.filter (fun a => a.kind == .readDst)).length
+  s!"{t.length} {bad} {decodeStuck chunk file} {nf} {bytesFetched chunk file}"
+
+def step (line : String) : String :=
+  match tokens line.trimAscii.toString with
+  | ["OPEN", hex] =>
+    match ofHex hex with
+    | some f => showOpen f
+    | none => "bad-hex"
+  | ["TRACE", c, hex] =>
+    match c.toNat?, ofHex hex with
+    | some chunk, some f => showTrace chunk f
+    | _, _ => "bad-args"
+  | _ => "bad-op"
+
+partial def loop (h : IO.FS.Stream) (out : IO.FS.Stream) : IO Unit := do
+  let line ← h.getLine
+  if line.isEmpty then return ()
+  out.putStrLn (step line)
+  loop h out
+
+def main : IO Unit := do
+  let out ← IO.getStdout
+  loop (← IO.getStdin) out
